@@ -652,7 +652,49 @@ def search_trees(ctx):
         if done % 50 == 1:
             ctx.sample({"program": prog, "root": type(y.expr).__name__, "transfer_bytes": list(map(repr, y.expr.transfer_bytes))})
     ctx.notes["programs"] = done
+    multistage_rechunk_stream(ctx, da, seen)
     ctx.notes["distinct_nodes_checked"] = len(seen)
+
+
+def multistage_rechunk_stream(ctx, da, seen):
+    """Rechunk nodes whose plan has several stages (the estimate sums over plan_rechunk's stages):
+    large fan-in merges/splits at the default configuration and moderate ones under small
+    array.rechunk.degree-limit / threshold / chunk-size.  Well-formedness of every node of the raw and
+    lowered trees; the number of planned stages is recorded."""
+    import dask
+    from dask_array._rechunk import plan_rechunk
+
+    rng = ctx.rng
+    cases = [((400,), ((1,) * 400,), ((400,),), {}), ((400,), ((400,),), ((1,) * 400,), {})]
+    for _ in range(ctx.scale(60, 600)):
+        nd = rng.choice([1, 1, 2])
+        shape = tuple(rng.choice([16, 24, 32, 64]) for _ in range(nd))
+        def lay(n, kind):
+            if kind == "fine":
+                c = rng.choice([1, 2])
+                return (c,) * (n // c)
+            if kind == "coarse":
+                return (n,) if rng.random() < 0.5 else (n // 2, n - n // 2)
+            return gen.rand_chunks(rng, n, maxparts=8)
+        kinds = [rng.choice(["fine", "coarse", "rand"]) for _ in range(nd)]
+        old = tuple(lay(n, k) for n, k in zip(shape, kinds))
+        new = tuple(lay(n, {"fine": "coarse", "coarse": "fine", "rand": "rand"}[k]) for n, k in zip(shape, kinds))
+        cfg = {"array.rechunk.degree-limit": rng.choice([2, 3, 4, 8, 100]), "array.rechunk.threshold": rng.choice([1, 4, 32]),
+               "array.chunk-size": rng.choice(["64B", "1KiB", "128MiB"])}
+        cases.append((shape, old, new, cfg))
+    stages_seen = {}
+    for shape, old, new, cfg in cases:
+        prog = [["zeros", list(shape), [list(c) for c in old]], ["rechunk", [list(c) for c in new]], ["config", cfg]]
+        try:
+            with dask.config.set(cfg):
+                y = da.zeros(shape, chunks=old, dtype="i8").rechunk(new)
+                nst = len(plan_rechunk(old, new, 8))
+                stages_seen[nst] = stages_seen.get(nst, 0) + 1
+                ctx.count(("multistage", min(nst, 4), len(shape)))
+                check_program(ctx, da, prog, y, seen)
+        except Exception as e:  # noqa: BLE001
+            ctx.fail("multistage-rechunk:raises:" + type(e).__name__, {"program": prog, "error": repr(e)[:200]}, "building/inspecting a multi-stage rechunk raises")
+    ctx.notes["multistage_rechunk_stage_histogram"] = {str(k): v for k, v in sorted(stages_seen.items())}
 
 
 # ------------------------------------------------------------------ targeted search
